@@ -185,3 +185,64 @@ class GhostMap(SymProto):
     @classmethod
     def fresh(cls, interp, name):
         return cls(interp.fresh(name, AII))
+
+
+class SmallDict(SymProto):
+    """insertion-ordered dict with a concrete number of entries whose keys may be symbolic strings / numbers: an association
+    list; key comparison goes through the interpreter's == (forking when undecided), exactly like a dict with equal hashes."""
+
+    def __init__(self, pairs=None):
+        self.pairs = list(pairs or [])
+
+    def __repr__(self):
+        return "SmallDict(" + ", ".join(f"{k!r}: {v!r}" for k, v in self.pairs) + ")"
+
+    def _find(self, interp, k):
+        from . import models
+        for i, (kk, _) in enumerate(self.pairs):
+            if interp.truth(models.equals(interp, kk, k)):
+                return i
+        return -1
+
+    def vf_getitem(self, interp, k):
+        i = self._find(interp, k)
+        if i < 0:
+            from .interp import PyRaise
+            raise PyRaise(KeyError(repr(k)))
+        return self.pairs[i][1]
+
+    def vf_setitem(self, interp, k, v):
+        i = self._find(interp, k)
+        if i < 0:
+            self.pairs.append((k, v))
+        else:
+            self.pairs[i] = (self.pairs[i][0], v)
+
+    def vf_contains(self, interp, k):
+        return self._find(interp, k) >= 0
+
+    def vf_len(self, interp):
+        return len(self.pairs)
+
+    def vf_truth(self):
+        return z3.BoolVal(bool(self.pairs))
+
+    def vf_view(self, interp):
+        from .loops import _concrete_view
+        return _concrete_view([k for k, _ in self.pairs])
+
+    def vf_method(self, interp, name, args, kwargs):
+        if kwargs:
+            raise Unsupported(f"dict.{name} with keyword arguments")
+        if name == "items" and not args:
+            return [(k, v) for k, v in self.pairs]
+        if name == "keys" and not args:
+            return [k for k, _ in self.pairs]
+        if name == "values" and not args:
+            return [v for _, v in self.pairs]
+        if name == "copy" and not args:
+            return SmallDict(self.pairs)
+        if name == "get" and 1 <= len(args) <= 2:
+            i = self._find(interp, args[0])
+            return self.pairs[i][1] if i >= 0 else (args[1] if len(args) > 1 else None)
+        raise Unsupported(f"dict.{name} on a dict with symbolic keys")
